@@ -748,7 +748,29 @@ pub(crate) fn read_filter_block(
 	if location.size() == 0 {
 		return Err(Error::FilterBlockEmpty);
 	}
-	let buf = read_bytes(src, location)?;
+	let buf = read_bytes(Arc::clone(&src), location)?;
+
+	// The filter block is written like every other block (data, compression type,
+	// masked CRC) - verify the trailer before trusting the contents: a damaged filter
+	// would otherwise panic in the reader or, worse, answer "key absent" for keys that
+	// are present.
+	let compress = read_bytes(
+		Arc::clone(&src),
+		&BlockHandle::new(location.offset() + location.size(), BLOCK_COMPRESS_LEN),
+	)?;
+	let cksum = read_bytes(
+		src,
+		&BlockHandle::new(
+			location.offset() + location.size() + BLOCK_COMPRESS_LEN,
+			BLOCK_CKSUM_LEN,
+		),
+	)?;
+	if !verify_table_block(&buf, compress[0], unmask(u32::decode_fixed(&cksum).unwrap())) {
+		return Err(Error::from(SSTableError::ChecksumVerificationFailed {
+			block_offset: location.offset() as u64,
+		}));
+	}
+
 	Ok(FilterBlockReader::new(buf, policy))
 }
 
